@@ -9,10 +9,16 @@
   of the form `spec… input (model input) = true` for ALL inputs (no bound on tree size, proof
   length, indices).
 
+  Share proofs: `shareproof_verify_sound` is the full-strength statement (the NMT binding is DERIVED from the multi-leaf
+  range-proof soundness of `Proofs/NmtMultiSound.lean`); `shareproof_verify_sound_partial` is the older form that takes the
+  binding as a hypothesis.
+
   Models: `Lumina/Model/Merkle.lean` (MerkleProof), `Lumina/Model/RowProof.lean` (RowProof, DAH hash,
   row_proof), `Lumina/Model/ShareProof.lean` (ShareProof over `Lumina/Model/Nmt.lean`).
 -/
 import Lumina.Proofs.C13Share
+import Lumina.Proofs.NmtMultiShare
+import Lumina.Props.C04   -- only for the concrete square of the non-vacuity example
 
 namespace Lumina.Props.C13
 open Lumina.Util Lumina.Model.Merkle Lumina.Proofs.Merkle Lumina.Proofs.C13
@@ -219,21 +225,18 @@ theorem rowproof_verifyOrig_counterexample :
 /-! ## ShareProof -/
 
 open Lumina.Model.ShareProof (ShareProof) in
-/-- **share proofs fail if any proven root, share or inner node is altered or the counts do not
-    match** — for every share proof, every square and every data root.
-
-    PARTIAL in one respect only: the binding of the proven shares to the square (last conjunct of
-    `specShareVerify`) rests on the hypothesis `NmtBinds h w sq all` — "`all` are the NMT roots of the
-    axes of `sq`, and an nmt-rs range proof accepted against such a root, for a range inside the
-    axis, proves exactly that range under its namespace".  That is the range-proof soundness of
-    nmt-rs for perfect trees, which belongs to group D's NMT model (`Lumina/Proofs/Nmt.lean` has the
-    single-leaf case `checkRangeProof_single_sound`; the general-range lemma is not proved yet).
-    Everything else (one presence proof with non-empty range per row root, share count = sum of the
-    ranges, the whole row-proof property, the wiring of each share group to the row root proven at
-    the merkle proof's index) is proved here with only the collision-freeness of the DAH tree hash. -/
-theorem shareproof_verify_sound_partial [DecidableEq D] (H : HashFns D) (h : Lumina.Model.Nmt.HashFn)
-    (hinj : InnerInj H) (hleaf : LeafInj H) (w : Nat) (sq all : List Bytes) (hn : NmtBinds h w sq all)
-    (sp : ShareProof D) (rt : Option D) (hb : ∀ p ∈ sp.rowProof.proofs, p.total ≤ 2 ^ 63) :
+/-- the share-proof property with the share-group binding (last conjunct of `specShareVerify`) supplied by the caller:
+    everything else — one presence proof with non-empty range per row root, share count = sum of the ranges, the whole
+    row-proof property, the wiring of each share group to the row root proven at the merkle proof's index — needs only
+    the collision-freeness of the DAH tree hash.  Used by both theorems below. -/
+theorem shareproof_verify_sound_of_slices [DecidableEq D] (H : HashFns D) (h : Lumina.Model.Nmt.HashFn)
+    (hinj : InnerInj H) (hleaf : LeafInj H) (w : Nat) (sq all : List Bytes)
+    (sp : ShareProof D) (rt : Option D) (hb : ∀ p ∈ sp.rowProof.proofs, p.total ≤ 2 ^ 63)
+    (hsb : Lumina.Model.ShareProof.rangeLoop h sp.namespaceId sp.data sp.shareProofs sp.rowProof.rowRoots = .ok →
+      bindsAll H all sp.rowProof.rowRoots (sp.rowProof.proofs.map obsOf) = true →
+      (∀ p ∈ sp.rowProof.proofs, p.total = all.length) →
+      sp.shareProofs.length = sp.rowProof.rowRoots.length → sp.rowProof.rowRoots.length = sp.rowProof.proofs.length →
+      slicesBound w sq sp.namespaceId sp.data (sp.shareProofs.map nobsOf) (sp.rowProof.proofs.map obsOf) = true) :
     specShareVerify H w sq all (shareObsOf sp) rt
       (shareResOf (Lumina.Model.ShareProof.verify H h sp rt)) = true := by
   unfold Lumina.Model.ShareProof.verify Lumina.Model.ShareProof.verifyWith
@@ -287,10 +290,76 @@ theorem shareproof_verify_sound_partial [DecidableEq D] (H : HashFns D) (h : Lum
                 have hlen : sp.rowProof.rowRoots.length = sp.rowProof.proofs.length := by
                   simp only [rowObsOf, List.length_map, beq_iff_eq] at hlr hlp
                   omega
-                exact slicesBound_of_ok H h w sq all hn sp.namespaceId sp.shareProofs sp.rowProof.rowRoots
-                  sp.rowProof.proofs sp.data hl hbind' htot' h1 hlen
+                exact hsb hl hbind' htot' h1 hlen
               · left
                 simpa using hc
+
+
+open Lumina.Model.ShareProof (ShareProof) in
+/-- the older, hypothesis-carrying form: the binding of the proven shares to the square rests on `NmtBinds h w sq all`
+    ("`all` are the NMT roots of the axes of `sq`, and an nmt-rs range proof accepted against such a root, for a range
+    inside the axis, proves exactly that range under its namespace").  Superseded by `shareproof_verify_sound`, which
+    derives the binding; kept because it is independent of how the square is represented. -/
+theorem shareproof_verify_sound_partial [DecidableEq D] (H : HashFns D) (h : Lumina.Model.Nmt.HashFn)
+    (hinj : InnerInj H) (hleaf : LeafInj H) (w : Nat) (sq all : List Bytes) (hn : NmtBinds h w sq all)
+    (sp : ShareProof D) (rt : Option D) (hb : ∀ p ∈ sp.rowProof.proofs, p.total ≤ 2 ^ 63) :
+    specShareVerify H w sq all (shareObsOf sp) rt
+      (shareResOf (Lumina.Model.ShareProof.verify H h sp rt)) = true :=
+  shareproof_verify_sound_of_slices H h hinj hleaf w sq all sp rt hb
+    (fun hl hbind htot h1 hlen => slicesBound_of_ok H h w sq all hn sp.namespaceId sp.shareProofs
+      sp.rowProof.rowRoots sp.rowProof.proofs sp.data hl hbind htot h1 hlen)
+
+open Lumina.Model.ShareProof (ShareProof) in
+open Lumina.Model.Eds (Eds Dah) in
+/-- **share proofs fail if any proven root, share or inner node is altered or the counts do not match** — FULL
+    strength: for every extended square `e` of power-of-two width with the quadrant parity flags and shares of at least
+    29 bytes (what `ExtendedDataSquare::new` establishes: `SquareShape`), its DAH, every share proof and every data
+    root, `specShareVerify` holds of the model's verdict, with `sq` = the raw square and `all` = the DAH's row and
+    column roots.  The NMT binding is derived (`NmtMulti.nmtBinds_of_eds`, from the multi-leaf range-proof soundness
+    `NmtMulti.checkRangeProof_multi_sound`), not assumed.
+    Hypotheses: collision-free DAH tree hash (`InnerInj`, `LeafInj`) and NMT hash (`HashOK h`); Rust type invariants:
+    merkle-proof totals ≤ 2^63 (i64 wire type), the share proof's namespace is 29 bytes, its NMT siblings are 90-byte
+    namespaced hashes.
+    What is NOT claimed because nmt-rs does not bind it: ranges with `end > width` (the spec conditions on
+    `end ≤ w`): a range proof carries no tree size, the verifier derives the shape from `(start, #siblings)`, so a
+    range claimed beyond the real width can be accepted for shares that sit elsewhere (see `design_notes/C13.md`). -/
+theorem shareproof_verify_sound [DecidableEq D] (H : HashFns D) (h : Lumina.Model.Nmt.HashFn)
+    (hinj : InnerInj H) (hleaf : LeafInj H) (hk : Lumina.Proofs.Nmt.HashOK h)
+    (e : Eds) (k : Nat) (hsq : Lumina.Proofs.NsData.SquareShape e) (hw : e.width = 2 ^ k)
+    (dah : Dah) (hd : Dah.ofEds h e = .ok dah)
+    (sp : ShareProof D) (rt : Option D) (hb : ∀ p ∈ sp.rowProof.proofs, p.total ≤ 2 ^ 63)
+    (hns : sp.namespaceId.length = 29) (hwf : ∀ p ∈ sp.shareProofs, ∀ x ∈ p.siblings, x.WF) :
+    specShareVerify H e.width (Lumina.Proofs.Sample.rawSquare e) dah.allRootsBytes (shareObsOf sp) rt
+      (shareResOf (Lumina.Model.ShareProof.verify H h sp rt)) = true :=
+  shareproof_verify_sound_of_slices H h hinj hleaf e.width _ _ sp rt hb
+    (fun hl hbind htot h1 hlen =>
+      Lumina.Proofs.NmtMulti.slicesBound_of_ok' H h e.width _ _ (Lumina.Proofs.NmtMulti.nmtBinds_of_eds hk hsq hw hd)
+        sp.namespaceId hns sp.shareProofs sp.rowProof.rowRoots sp.rowProof.proofs sp.data hwf hl hbind htot h1 hlen)
+
+/-- the same in reduction form for the NMT hash (satisfiable by real hashes): the property holds, or the NMT hash has
+    an explicit collision -/
+theorem shareproof_verify_sound_or_collision [DecidableEq D] (H : HashFns D) (h : Lumina.Model.Nmt.HashFn)
+    (hinj : InnerInj H) (hleaf : LeafInj H) (hl : Lumina.Proofs.Nmt.HashLen h)
+    (e : Lumina.Model.Eds.Eds) (k : Nat) (hsq : Lumina.Proofs.NsData.SquareShape e) (hw : e.width = 2 ^ k)
+    (dah : Lumina.Model.Eds.Dah) (hd : Lumina.Model.Eds.Dah.ofEds h e = .ok dah)
+    (sp : Lumina.Model.ShareProof.ShareProof D) (rt : Option D) (hb : ∀ p ∈ sp.rowProof.proofs, p.total ≤ 2 ^ 63)
+    (hns : sp.namespaceId.length = 29) (hwf : ∀ p ∈ sp.shareProofs, ∀ x ∈ p.siblings, x.WF) :
+    specShareVerify H e.width (Lumina.Proofs.Sample.rawSquare e) dah.allRootsBytes (shareObsOf sp) rt
+      (shareResOf (Lumina.Model.ShareProof.verify H h sp rt)) = true ∨ ∃ x y, x ≠ y ∧ h x = h y := by
+  by_cases hi : Function.Injective h
+  · exact Or.inl (shareproof_verify_sound H h hinj hleaf ⟨hi, hl⟩ e k hsq hw dah hd sp rt hb hns hwf)
+  · right
+    unfold Function.Injective at hi
+    have : ∃ x y, h x = h y ∧ x ≠ y := by
+      apply Classical.byContradiction
+      intro hn
+      apply hi
+      intro a b hab
+      apply Classical.byContradiction
+      intro hne
+      exact hn ⟨a, b, hab, hne⟩
+    obtain ⟨x, y, h1, h2⟩ := this
+    exact ⟨x, y, h2, h1⟩
 
 /-- the unconditional part: whatever the NMT is, an accepted share proof has one presence range
     proof with a non-empty range per proven row root, exactly as many shares as the ranges add up
@@ -355,5 +424,31 @@ example :
     (∀ p ∈ rp.proofs, p.total ≤ 2 ^ 63) ∧
       Lumina.Model.RowProof.verify termFns rp (some (.inner (.leaf [7]) (.leaf [8]))) = .ok := by
   decide
+
+/-! ### non-vacuity of `shareproof_verify_sound` (concrete 2×2 square of 512-byte shares and toy 32-byte NMT hash from
+    `Props/C04`; free term algebra for the DAH tree) -/
+
+open Lumina.Props.C04 (toyH32 okEds okDah nonvacuity_okEds_valid nonvacuity_toyH32_len) in
+/-- the honest share proof for share (0,0) of the concrete square, built by the model of the honest construction -/
+def okShareProof : Lumina.Model.ShareProof.ShareProof Term :=
+  match Lumina.Model.ShareProof.build termFns toyH32 okEds okDah (List.replicate 29 0) 0 [(0, 1)] with
+  | .ok sp => sp
+  | _ => ⟨[], [], [], ⟨[], [], 0, 0⟩⟩
+
+open Lumina.Props.C04 (toyH32 okEds okDah nonvacuity_okEds_valid nonvacuity_toyH32_len) in
+/-- all hypotheses of `shareproof_verify_sound` other than the idealised NMT hash (`HashOK`; see the `_or_collision`
+    form) are met by a concrete square and a concrete share proof that the model accepts -/
+example : Lumina.Proofs.NsData.SquareShape okEds ∧ okEds.width = 2 ^ 1 ∧
+    Lumina.Model.Eds.Dah.ofEds toyH32 okEds = .ok okDah ∧ Lumina.Proofs.Nmt.HashLen toyH32 ∧
+    InnerInj termFns ∧ LeafInj termFns ∧
+    okShareProof.data.length = 1 ∧ okShareProof.namespaceId.length = 29 ∧
+    (∀ p ∈ okShareProof.shareProofs, ∀ x ∈ p.siblings, x.WF) ∧
+    (∀ p ∈ okShareProof.rowProof.proofs, p.total ≤ 2 ^ 63) ∧
+    Lumina.Model.ShareProof.verify termFns toyH32 okShareProof
+      (some (Lumina.Model.RowProof.dahHash termFns (okDah.rowRoots.map Lumina.Model.Nmt.NsHash.toBytes)
+        (okDah.colRoots.map Lumina.Model.Nmt.NsHash.toBytes))) = .ok := by
+  refine ⟨⟨nonvacuity_okEds_valid.flags, fun sh hm => by rw [nonvacuity_okEds_valid.size sh hm]; decide⟩, rfl, rfl,
+    nonvacuity_toyH32_len, termFns_innerInj, termFns_leafInj, ?_⟩
+  decide +kernel
 
 end Lumina.Props.C13
